@@ -152,9 +152,10 @@ def ordE : List Path := [.bamstat 1, .save 0, .groups 0, .processed 1, .trStat 0
                          .rgLock, .readStat 1]
 
 theorem cfgE_wf : WF cfgE := by
-  refine ⟨by decide, by decide, by decide, ?_, ?_⟩ <;> intro c <;>
-    simp only [cfgE, List.mem_cons, List.not_mem_nil, or_false] <;>
-    constructor <;> rintro (rfl | rfl) <;> simp
+  refine ⟨by decide, by decide, by decide, ?_, by decide⟩
+  intro c
+  simp only [cfgE, List.mem_cons, List.not_mem_nil, or_false]
+  constructor <;> rintro (rfl | rfl) <;> simp
 
 /-- one chromosome, annotation, `--no_model_construction`, `--high_memory`, plain outputs -/
 def cfgN : Cfg := { chrs := [0], mchrs := [0], bchrs := [0], genedb := true, rg := .none, keepTmp := false, unmapped := true,
@@ -184,7 +185,7 @@ example : WF cfgE ∧ ordE.Nodup ∧ (cleanEvents fixed cfgE ordE)[211]? = some 
 example : verdictFromOpts fixed cfgE ordE ordE false true FS.empty 212 = .equal ∧
     verdictFromOpts fixed cfgN ord1 ord1 false false FS.empty 30 = .equal :=
   ⟨resume_correct_opts cfgE_wf rfl ordE ordE (by decide) (by decide) false true 212 (by omega),
-   resume_correct_opts (cfg := cfgN) ⟨by decide, by decide, by decide, fun _ => Iff.rfl, fun _ => Iff.rfl⟩ rfl ord1 ord1
+   resume_correct_opts (cfg := cfgN) ⟨by decide, by decide, by decide, fun _ => Iff.rfl, fun _ _ h => h⟩ rfl ord1 ord1
      (by decide) (by decide) false false 30 (by omega)⟩
 
 -- … and the resumed run with `--keep_tmp` really differs from the one without (it keeps the auxiliary files)
@@ -206,8 +207,8 @@ theorem expsO_wf : MWF expsO := by
   simp only [expsO, mkExps, withCarried, List.zip_cons_cons, List.zip_nil_right, List.zipIdx_cons, List.zipIdx_nil,
     List.map_cons, List.map_nil, List.mem_cons, List.not_mem_nil, or_false] at hx
   rcases hx with rfl | rfl
-  · exact ⟨⟨by decide, by decide, by decide, fun _ => Iff.rfl, fun _ => Iff.rfl⟩, rfl, by decide⟩
-  · exact ⟨⟨cfgE_wf.nd, cfgE_wf.mnd, cfgE_wf.bnd, cfgE_wf.m_iff, cfgE_wf.b_iff⟩, rfl, by decide⟩
+  · exact ⟨⟨by decide, by decide, by decide, fun _ => Iff.rfl, fun _ _ h => h⟩, ⟨rfl, rfl⟩, by decide⟩
+  · exact ⟨⟨cfgE_wf.nd, cfgE_wf.mnd, cfgE_wf.bnd, cfgE_wf.m_iff, cfgE_wf.b_sub⟩, ⟨rfl, rfl⟩, by decide⟩
 
 -- `resume_correct_multi` over the extended configuration space: 2 + 61 + 260 events, killed inside the merge of the exon
 -- counts of the second experiment
